@@ -150,7 +150,7 @@ int main() {
       } else if (t.size() == 3 && t[0] == "R") {
         auto tb = make_table(t[1]);
         std::cout << do_read(*tb, unhex(t[2])) << "\n";
-      } else if (t.size() >= 3 && t[0] == "W") {
+      } else if (t.size() >= 3 && (t[0] == "W" || t[0] == "RI")) {
         auto tb = make_table(t[1]);
         int k = std::stoi(t[2]);
         size_t i = 3;
@@ -161,6 +161,8 @@ int main() {
           Object o;
           if (kind == "V") {
             o = parse_tree(t, i);
+          } else if (kind == "U") {
+            o = parse_tree(t, i);   // the flag is set on the stored copy below (copy assignment drops internal flags)
           } else {
             keep.push_back(std::make_unique<std::string>(unhex(t.at(i++))));
             const std::string& s = *keep.back();
@@ -170,7 +172,16 @@ int main() {
             else if (kind == "M") o = torrent::raw_map(s.data(), s.size());
             else throw std::runtime_error("sval");
           }
-          if (idx < tb->size()) tb->values()[idx].object = o;
+          if (idx < tb->size()) {
+            tb->values()[idx].object = o;
+            if (kind == "U") tb->values()[idx].object.set_internal_flags(Object::flag_unordered);
+          }
+        }
+        if (t[0] == "RI") {
+          // destination independence: read INTO the map that already holds (stale) values
+          if (i + 1 != t.size()) { std::cout << "BADCASE\n"; continue; }
+          std::cout << do_read(*tb, unhex(t[i])) << "\n";
+          continue;
         }
         std::string enc;
         {
